@@ -90,10 +90,14 @@ def work(item):
     tr.start()
     cands, samples = [], []
     nontrivial = 0
+    hist = []
     for d, free in item["cases"]:
         c = check_case(ex, d, free)
         if c is not None:
+            # the calls this process made before (a collapser that keeps state between calls fails only after them)
+            c["history"] = hist[-60:]
             cands.append(c)
+        hist.append([d, free])
         if exprdsl.size(d) >= 3:
             nontrivial += 1
         if len(samples) < 2 and exprdsl.size(d) >= 5 and free:
@@ -111,6 +115,23 @@ def work(item):
 
 
 def replay(d):
+    r = replay_once(d)
+    if r.get("reproduced") or not d.get("history"):
+        return r
+    # holds in a fresh process: repeat it after the calls that preceded it in the worker
+    for hd, hfree in d["history"]:
+        try:
+            run_collapse(hd, hfree)
+        except Exception:  # noqa
+            pass
+    r2 = replay_once(d)
+    if r2.get("reproduced"):
+        r2["detail"] = "holds in a fresh process but NOT after %d earlier collapse_constants calls (state kept between calls): %s" % (
+            len(d["history"]), r2.get("detail"))
+    return r2
+
+
+def replay_once(d):
     from fractions import Fraction  # noqa
     try:
         expr, res, assigns = run_collapse(d["expr"], d["free"])
